@@ -5,7 +5,9 @@
    the reset line with the configuration).
 
    For every step in which the REAL node accepted exactly one message
-   (a `Deliver` event: remote via a `msg` stimulus, local via `publish`):
+   (a `Deliver` event: remote via a `msg` stimulus, local via `publish`), and for
+   every message of a `batch` step (AddToBatch + PublishBatch: one Deliver per
+   message, in batch order; the k-th is local-only iff act.msgs[k] says so):
      pre-state  = the previous line's snapshot (taken inside the event loop),
      m, t       = the delivered message and its topic,
      src/author = Deliver.via / Deliver.from ("self" for own messages),
@@ -92,15 +94,15 @@ DirectSet == IF Gossip THEN Rng(P.direct) ELSE {}
 TopicPeers(t) == SetAt(P.topics, t)
 EligFor(t) == {p \in TopicPeers(t) : IsMesh(p) /\ p \notin DirectSet /\ p \in OkSet}
 
-View(d) ==
+\* local: local-only publication; batch: part of a batch; fpre / fpost: fanout[t] before / after this message
+View(d, local, batch, fpre, fpost) ==
     LET t == d.topic IN
-    [router |-> Router, self |-> "self", src |-> d.via, author |-> d.from, local |-> LocalOnly,
+    [router |-> Router, self |-> "self", src |-> d.via, author |-> d.from, local |-> local, batch |-> batch,
      floodPublish |-> Gossip /\ cfg.flood, D |-> cfg.D,
      tpKnown |-> t \in DOMAIN P.topics, tp |-> TopicPeers(t),
      joined |-> Gossip /\ t \in DOMAIN P.mesh,
      mesh |-> IF Gossip THEN SetAt(P.mesh, t) ELSE {},
-     fanout |-> IF Gossip THEN SetAt(P.fanout, t) ELSE {},
-     fanoutPost |-> IF Gossip THEN SetAt(Q.fanout, t) ELSE {},
+     fanout |-> fpre, fanoutPost |-> fpost,
      direct |-> DirectSet,
      floodp |-> IF Router = "randomsub" THEN {p \in DOMAIN P.rsPeers : P.rsPeers[p] = FloodProto}
                 ELSE {p \in AllPeers : ~IsMesh(p)},
@@ -117,11 +119,14 @@ StepOut(kind, tags, sig) ==
     PrintT(<<"STEP", ToJson([kind |-> kind, at |-> Where, tags |-> tags, sig |-> sig])>>)
 
 \* --------------------------------------------------------------- judging one Deliver step
-JudgeDeliver(d) ==
-    LET v    == View(d)
+FanPre(t)  == IF Gossip THEN SetAt(P.fanout, t) ELSE {}
+FanPost(t) == IF Gossip THEN SetAt(Q.fanout, t) ELSE {}
+JudgeDeliver(d, local, batch, fpre, fpost) ==
+    LET v    == View(d, local, batch, fpre, fpost)
         m    == d.m
-        Rev  == IF v.local THEN SendAny ELSE SendTo(m) \cup DropTo(m)
-        Wire == IF v.local THEN WireAny ELSE WireTo(m)
+        \* a single local-only publication: nothing at all may leave; in a batch the copies are told apart by name
+        Rev  == IF v.local /\ ~batch THEN SendAny ELSE SendTo(m) \cup DropTo(m)
+        Wire == IF v.local /\ ~batch THEN WireAny ELSE WireTo(m)
         Rhi  == Rev \cup Wire
         ambiguous == m \in usedNames
         F    == {f \in StepFailures(v, Rev, Rhi) : ~(ambiguous /\ f[2] \in {"mesh-unwanted-sent", "fanout-unwanted-sent"})}
@@ -146,11 +151,26 @@ JudgeDeliver(d) ==
        /\ (d.via = "self" /\ ~v.local /\ UnsignedOwn(m) # {}) => Viol("P_C06_Copy", "own-copy-unsigned", extra)
        /\ StepOut(IF d.via = "self" THEN "pub" ELSE "fwd", tags, sig)
 
+\* --------------------------------------------------------------- a batch step: one Deliver per message, in batch order
+IsBatch == E.act.a = "batch"
+Rank(i) == Cardinality({j \in Delivers : j <= i})
+BatchLocal(k) == Has(E.act.msgs[k], "localOnly") /\ E.act.msgs[k].localOnly
+BatchOK == IsBatch /\ Cardinality(Delivers) = Len(E.act.msgs) /\ E.hb = 0 /\ (Gossip => P.scoresExact)
+\* the first message that goes through the fanout code path selects the fanout, the later ones re-use it
+JudgeBatch ==
+    \A i \in Delivers :
+       LET k == Rank(i)
+           d == E.ev[i]
+           firstRouted == \A j \in 1..(k - 1) : BatchLocal(j)
+           fpre == IF FanPre(d.topic) # {} \/ (firstRouted /\ ~BatchLocal(k)) THEN FanPre(d.topic)
+                   ELSE IF BatchLocal(k) THEN {} ELSE FanPost(d.topic)
+       IN JudgeDeliver(d, BatchLocal(k), TRUE, fpre, FanPost(d.topic))
+
 \* --------------------------------------------------------------- fanout life cycle (every step of a gossipsub scenario)
 HbInstant == IF (E.t - HbSettle - 100) % cfg.hbMs = 0 THEN E.t - HbSettle ELSE E.t
 Expired(t) == E.hb > 0 /\ (t \notin DOMAIN lastpub \/ HbInstant > lastpub[t] + cfg.fanoutTTLMs)
 \* topics whose fanout use in this step is judged by JudgeDeliver (P_C06_Fanout / P_C06_FanoutStable)
-PublishedTo == IF Cardinality(Delivers) = 1 THEN {E.ev[i].topic : i \in Delivers} ELSE {}
+PublishedTo == IF Cardinality(Delivers) = 1 \/ BatchOK THEN {E.ev[i].topic : i \in Delivers} ELSE {}
 FanoutTopics == {t \in DOMAIN P.fanout : P.fanout[t] # <<>>}
 HbView(t) ==
     [fanout |-> SetAt(P.fanout, t), fanoutPost |-> SetAt(Q.fanout, t), tp |-> TopicPeers(t), ok |-> OkSet,
@@ -179,16 +199,19 @@ Judge ==
     ELSE /\ BadCopy # {} => Viol("P_C06_Copy", "copy-differs", [peers |-> BadCopy])
          /\ (E.act.a # "iwant" /\ ~LocalOnly /\ Leaving \ Accepted # {})
                => Viol("P_C06_Never", "copy-without-acceptance", [msgs |-> Leaving \ Accepted, accepted |-> Accepted])
-         /\ IF Cardinality(Delivers) = 1 /\ E.hb = 0 /\ (Gossip => P.scoresExact)
-              THEN JudgeDeliver(E.ev[CHOOSE i \in Delivers : TRUE])
+         /\ IF BatchOK THEN JudgeBatch
+            ELSE IF ~IsBatch /\ Cardinality(Delivers) = 1 /\ E.hb = 0 /\ (Gossip => P.scoresExact)
+              THEN LET d == E.ev[CHOOSE i \in Delivers : TRUE]
+                   IN JudgeDeliver(d, LocalOnly, FALSE, FanPre(d.topic), FanPost(d.topic))
               ELSE Delivers # {} => StepOut("skipped", {"skipped-step"}, [n |-> Cardinality(Delivers), hb |-> E.hb])
          /\ JudgeFanout
 
 \* monitors
 OwnFanoutPublish(t) ==
-    /\ InScenario /\ Gossip /\ Cardinality(Delivers) = 1 /\ ~LocalOnly
-    /\ LET d == E.ev[CHOOSE i \in Delivers : TRUE]
-       IN d.topic = t /\ d.via = "self" /\ ~cfg.flood /\ t \notin DOMAIN P.mesh /\ t \in DOMAIN P.topics
+    /\ InScenario /\ Gossip /\ ~cfg.flood /\ t \notin DOMAIN P.mesh
+    /\ \/ /\ ~IsBatch /\ Cardinality(Delivers) = 1 /\ ~LocalOnly
+          /\ LET d == E.ev[CHOOSE i \in Delivers : TRUE] IN d.topic = t /\ d.via = "self"
+       \/ /\ BatchOK /\ E.act.t = t /\ \E k \in 1..Len(E.act.msgs) : ~BatchLocal(k)
 NextLastpub ==
     LET ts == IF InScenario /\ Gossip THEN {E.ev[i].topic : i \in Delivers} ELSE {}
         upd == {t \in ts : OwnFanoutPublish(t)}
